@@ -12,6 +12,7 @@
 import PdshVerif.Dsh.Exit
 import PdshVerif.Dsh.ExitSpec
 import PdshVerif.Dsh.ExitLemmas
+import PdshVerif.Dsh.ExitRefine
 
 namespace PdshVerif.C08
 open PdshVerif PdshVerif.Dsh PdshVerif.Dsh.Exit
@@ -210,5 +211,110 @@ theorem exec_exit_admissible (fx : Fixes) (hd7 : fx.d7 = true) (hd8 : fx.d8 = tr
 
 example : ∀ o ∈ [ExitSpec.Outcome.exited 255, .killed 9, .connectFailed, .timedOut], okOutcome o := by
   simp [okOutcome]
+
+/-! ## the repaired model refines the specification, for every status channel -/
+
+/-- MAIN REFINEMENT (repaired -S loop, D8): whatever the channel, if what the loop sees of every target is
+    faithful to its outcome (`Faithful`: the code of a command that ran, a non-zero code for a killed one,
+    state FAILED for an unreachable / timed-out one), then for every outcome vector in the domain, in any
+    order, with and without -S / -k, the exit status is one the specification admits. -/
+theorem faithful_exit_admissible (fx : Fixes) (hd8 : fx.d8 = true) (S k : Bool)
+    (outs : List Outcome) (hs : List Host) (hrel : AllFaithful outs hs) (hok : ∀ o ∈ outs, okOutcome o) :
+    ExitSpec.admissible S k false outs (mainExit fx ⟨S, k⟩ (.started hs)) = true := by
+  obtain ⟨hF, hK, m1, m2, m3, m4⟩ := faithful_invariants outs hs hrel hok
+  have hagg := S_is_max fx hd8 hs
+  have hR : RC_FAILED = 254 := by decide
+  have m0 := maxRcFrom_ge 0 hs
+  unfold ExitSpec.admissible mainExit dshReturn
+  simp only [hK, Bool.false_eq_true, if_false]
+  by_cases hk : (k && outs.any ExitSpec.Outcome.isFailure) = true
+  · simp [hk]
+  · simp only [hk, if_false, Bool.false_eq_true]
+    cases S with
+    | false => simp [exitStatus]
+    | true =>
+      simp only [Bool.not_true, Bool.false_eq_true, if_false, if_true, hagg]
+      unfold specAgg ExitSpec.base exitStatus
+      rw [hF]
+      unfold maxRc at *
+      by_cases hkl : outs.any ExitSpec.Outcome.isKilled = true
+      · have := m3 hkl
+        simp only [hkl, if_true, Bool.and_eq_true, decide_eq_true_eq]
+        by_cases hu : outs.any ExitSpec.Outcome.unreachable = true
+        · simp only [hu, if_true, hR]; omega
+        · simp only [hu, if_false, Bool.false_eq_true]; omega
+      · have hkl' : outs.any ExitSpec.Outcome.isKilled = false := by simpa using hkl
+        obtain ⟨j1, j2⟩ := m4 hkl'
+        simp only [hkl, if_false, Bool.false_eq_true, decide_eq_true_eq]
+        by_cases hu : outs.any ExitSpec.Outcome.unreachable = true
+        · simp only [hu, if_true, hR]; omega
+        · have hu' : outs.any ExitSpec.Outcome.unreachable = false := by simpa using hu
+          have := j2 hu'
+          simp only [hu, if_false, Bool.false_eq_true]; omega
+
+/-- repaired in-band channel (D9 + LATE): what the -S loop sees of a target is faithful to its outcome -/
+theorem inband_host_faithful (fx : Fixes) (hd9 : fx.d9 = true) (hl : fx.late = true) (o : Outcome)
+    (hok : okOutcome o) (x : InbandData) (hx : x.ok) :
+    Faithful o (hostOf fx (inbandScript x.out.flatten x.pre x.late.flatten o)) := by
+  obtain ⟨ho, hla, hpx, hpn, hpl⟩ := hx
+  have lines : ∀ c : Nat, splitLines (x.out.flatten ++ markerLine x.pre c ++ x.late.flatten) =
+      x.out ++ [markerLine x.pre c] ++ x.late := by
+    intro c
+    have := splitLines_flatten (x.out ++ [markerLine x.pre c] ++ x.late) [] (by
+      intro l hl'
+      simp only [List.mem_append, List.mem_singleton] at hl'
+      rcases hl' with (h1 | h1) | h1
+      · exact (ho l h1).1
+      · subst h1; exact markerLine_isLine _ _ hpl
+      · exact (hla l h1).1) (by simp)
+    simpa using this
+  have rc : ∀ c : Nat, c < CInt.I31 →
+      rcAfterLines fx (splitLines (x.out.flatten ++ markerLine x.pre c ++ x.late.flatten)) = c := by
+    intro c hc
+    rw [lines c]
+    exact hostRc_inband fx hd9 hl x.out x.late x.pre c hc (fun l h => (ho l h).2) (fun l h => (hla l h).2) hpx hpn
+  cases o with
+  | exited c =>
+    have hc : c ≤ 255 := hok
+    simp only [Faithful, hostOf, inbandScript, Bool.not_true, Bool.false_eq_true, if_false]
+    rw [rc c (by unfold CInt.I31; omega)]
+    simp [finalRc]
+  | killed s =>
+    have hs : 1 ≤ s ∧ s ≤ 64 := hok
+    simp only [Faithful, hostOf, inbandScript, Bool.not_true, Bool.false_eq_true, if_false]
+    rw [rc (128 + s) (by unfold CInt.I31; omega)]
+    simp [finalRc]
+    omega
+  | connectFailed => simp [Faithful, hostOf, inbandScript, finalRc]
+  | timedOut =>
+    have : splitLines (x.out.flatten ++ x.pre) = x.out :=
+      splitLines_flatten x.out x.pre (fun l h => (ho l h).1) hpl
+    simp only [Faithful, hostOf, inbandScript, Bool.not_true, Bool.false_eq_true, if_false, if_true, this]
+    unfold rcAfterLines
+    rw [foldl_lineStep_noX fx hl 0 x.out (fun l h => (ho l h).2)]
+    simp [finalRc]
+
+/-- in-band channel, whole run: outcome vector with per-target output data, repaired D8 + D9 + LATE -/
+theorem inband_exit_admissible (fx : Fixes) (hd8 : fx.d8 = true) (hd9 : fx.d9 = true) (hl : fx.late = true)
+    (S k : Bool) (run : List (Outcome × InbandData)) (hok : ∀ ox ∈ run, okOutcome ox.1 ∧ ox.2.ok) :
+    ExitSpec.admissible S k false (run.map (·.1))
+      (mainExit fx ⟨S, k⟩ (.started (run.map fun ox =>
+        hostOf fx (inbandScript ox.2.out.flatten ox.2.pre ox.2.late.flatten ox.1)))) = true := by
+  apply faithful_exit_admissible fx hd8
+  · clear S k
+    induction run with
+    | nil => exact .nil
+    | cons ox rest ih =>
+      exact .cons (inband_host_faithful fx hd9 hl ox.1 (hok ox (by simp)).1 ox.2 (hok ox (by simp)).2)
+        (ih (fun y hy => hok y (by simp [hy])))
+  · intro o ho
+    simp only [List.mem_map] at ho
+    obtain ⟨ox, hm, rfl⟩ := ho
+    exact (hok ox hm).1
+
+example : (⟨["hello\n".toList], "no newline".toList, ["late\n".toList]⟩ : InbandData).ok := by
+  refine ⟨?_, ?_, by decide, by decide, by decide⟩
+  · intro l hl; simp at hl; subst hl; exact ⟨⟨"hello".toList, by decide, by decide⟩, by decide⟩
+  · intro l hl; simp at hl; subst hl; exact ⟨⟨"late".toList, by decide, by decide⟩, by decide⟩
 
 end PdshVerif.C08
